@@ -21,7 +21,7 @@ Proof.
         eapply qinv_skip; eassumption.
       * destruct (i_near (nested_info (s_g s) c)) eqn:EN.
         -- assert (Hk : is_some (k_near (t_kind c)) = true).
-           { unfold nested_info in EN. simpl in EN. apply andb_true_iff in EN as [_ EN]. exact EN. }
+           { unfold nested_info, is_const in EN. simpl in EN. apply andb_true_iff in EN as [_ EN]. apply andb_true_iff in EN as [EN _]. exact EN. }
            eapply step_near_inv; eassumption.
         -- eapply step_clear_inv; eassumption.
     + intro E. inversion E; subst. exists cs. split; [exact I|]. split; [|exact NF].
